@@ -1,6 +1,10 @@
 /-
   The refinement between the generated helper-trait program and the user's blocks (DESIGN.md §6):
   helper lemmas (composition of substitutions, finite choice) and the two inclusions.
+  Substitutions may bind const parameters (`.ex`); the side conditions are about kinds of parameter occurrences
+  (`wkT` for the instantiating substitution, `kindOK` for a member's substitution, `occSub` for keys against the
+  header) — see Sem.lean. The ambiguous generic-argument position `GenericArgument::Type [tparam n]` (a bare const
+  argument is printed like a type) is handled by `inst` (Tree.lean) and by `comp` (Sem.lean).
 -/
 import DisjointImpls.Sem
 namespace DI
@@ -19,102 +23,544 @@ theorem inst_node (σ : Subst) (h : noEx σ) (k : String) (as : List String) (ks
       | identity => simp [instL, inst, hl]
   · rfl
 
-theorem lookup_comp (θ ρ : Subst) (n : String) :
-    lookup (comp θ ρ) n = (lookup θ n).map (fun v => match v with
-      | .ty t => .ty (inst ρ t)
-      | .ex e => .ex (inst ρ e)
-      | .identity => match lookup ρ n with | some w => w | none => .identity) := by
-  induction θ with
-  | nil => simp [comp, lookup]
-  | cons hd tl ih =>
-    obtain ⟨m, v⟩ := hd
-    unfold comp at ih ⊢
-    cases v with
-    | ty t =>
-      simp only [List.map, lookup]
-      by_cases hmn : m = n
-      · simp [hmn]
-      · simp [hmn]; exact ih
-    | ex e =>
-      simp only [List.map, lookup]
-      by_cases hmn : m = n
-      · simp [hmn]
-      · simp [hmn]; exact ih
-    | identity =>
-      simp only [List.map, lookup]
-      by_cases hmn : m = n
-      · subst hmn; simp; rfl
-      · simp [hmn]; exact ih
 
-theorem noEx_comp (θ ρ : Subst) (hθ : noEx θ) (hρ : noEx ρ) : noEx (comp θ ρ) := by
-  intro n e h
-  rw [lookup_comp] at h
-  cases hl : lookup θ n with
-  | none => simp [hl] at h
-  | some v =>
-    cases v with
-    | ty t => simp [hl] at h
-    | ex e' => exact hθ n e' hl
-    | identity =>
-      simp [hl] at h
-      cases hr : lookup ρ n with
-      | none => simp [hr] at h
-      | some w => simp [hr] at h; subst h; exact hρ n e hr
+/-! ### Unfolding `inst` and the kind predicates at a node -/
+
+/-- the ambiguous generic-argument position `GenericArgument::Type [tparam n]` -/
+def isGA (k : String) (as : List String) (ks : List T) : Option String :=
+  match k, as, ks with
+  | "GenericArgument::Type", [], [.tparam n] => some n
+  | _, _, _ => none
+
+def gaNode (t : T) : T := .node "GenericArgument::Type" [] [t]
+
+theorem isGA_some {k : String} {as : List String} {ks : List T} {n : String} (h : isGA k as ks = some n) :
+    k = "GenericArgument::Type" ∧ as = [] ∧ ks = [.tparam n] := by
+  unfold isGA at h
+  split at h
+  · cases h; exact ⟨rfl, rfl, rfl⟩
+  · cases h
+
+theorem instGa (σ : Subst) (n : String) :
+    inst σ (gaNode (.tparam n)) = match lookup σ n with
+      | some (.ex e) => .node "GenericArgument::Const" [] [e]
+      | some (.ty t) => gaNode t
+      | _ => gaNode (.tparam n) := by
+  unfold gaNode
+  rw [inst]
+  rcases lookup σ n with _ | (t | e | _) <;> rfl
+
+theorem inst_other (σ : Subst) {k : String} {as : List String} {ks : List T} (h : isGA k as ks = none) :
+    inst σ (.node k as ks) = .node k as (instL σ ks) := by
+  unfold inst
+  split
+  · simp [isGA] at h
+  · rfl
+
+theorem wkT_other (σ : Subst) {k : String} {as : List String} {ks : List T} (h : isGA k as ks = none) :
+    wkT σ (.node k as ks) = wkL σ ks := by
+  unfold wkT
+  split
+  · simp [isGA] at h
+  · rfl
+
+theorem bareOcc_other {k : String} {as : List String} {ks : List T} (h : isGA k as ks = none) :
+    bareOcc (.node k as ks) = bareOccL ks := by
+  unfold bareOcc
+  split
+  · simp [isGA] at h
+  · rfl
+theorem exOcc_other {k : String} {as : List String} {ks : List T} (h : isGA k as ks = none) :
+    exOcc (.node k as ks) = exOccL ks := by
+  unfold exOcc
+  split
+  · simp [isGA] at h
+  · rfl
+theorem gaOcc_other {k : String} {as : List String} {ks : List T} (h : isGA k as ks = none) :
+    gaOcc (.node k as ks) = gaOccL ks := by
+  unfold gaOcc
+  split
+  · simp [isGA] at h
+  · rfl
+
+theorem kindOK_other (θ : Subst) {k : String} {as : List String} {ks : List T} (h : isGA k as ks = none)
+    (hk : kindOK θ (.node k as ks) = true) :
+    kindOKL θ ks = true ∧ ¬ ∃ n, k = "GenericArgument::Type" ∧ as = [] ∧ ks = [.eparam n] := by
+  unfold kindOK at hk
+  split at hk
+  · simp [isGA] at h
+  · cases hk
+  · next h1 h2 =>
+    refine ⟨hk, ?_⟩
+    rintro ⟨n, rfl, rfl, rfl⟩
+    exact h2 n rfl rfl rfl
+
+theorem instGa_ex {σ : Subst} {n : String} {e : T} (h : lookup σ n = some (.ex e)) :
+    inst σ (gaNode (.tparam n)) = .node "GenericArgument::Const" [] [e] := by rw [instGa, h]
+theorem instGa_ty {σ : Subst} {n : String} {t : T} (h : lookup σ n = some (.ty t)) :
+    inst σ (gaNode (.tparam n)) = gaNode t := by rw [instGa, h]
+theorem instGa_id {σ : Subst} {n : String} (h : lookup σ n = some .identity) :
+    inst σ (gaNode (.tparam n)) = gaNode (.tparam n) := by rw [instGa, h]
+theorem instGa_none {σ : Subst} {n : String} (h : lookup σ n = none) :
+    inst σ (gaNode (.tparam n)) = gaNode (.tparam n) := by rw [instGa, h]
+
+theorem instTp_ty {σ : Subst} {n : String} {t : T} (h : lookup σ n = some (.ty t)) : inst σ (.tparam n) = t := by
+  rw [inst, h]
+theorem instTp_notTy {σ : Subst} {n : String} (h : ∀ t, lookup σ n ≠ some (.ty t)) : inst σ (.tparam n) = .tparam n := by
+  rw [inst]
+  rcases hl : lookup σ n with _ | (t | e | _)
+  · rfl
+  · exact absurd hl (h t)
+  · rfl
+  · rfl
+theorem instEp_ex {σ : Subst} {n : String} {e : T} (h : lookup σ n = some (.ex e)) : inst σ (.eparam n) = e := by
+  rw [inst, h]
+theorem instEp_notEx {σ : Subst} {n : String} (h : ∀ e, lookup σ n ≠ some (.ex e)) : inst σ (.eparam n) = .eparam n := by
+  rw [inst]
+  rcases hl : lookup σ n with _ | (t | e | _)
+  · rfl
+  · rfl
+  · exact absurd hl (h e)
+  · rfl
+
+theorem nonEx_iff {σ : Subst} {n : String} : nonEx σ n = true ↔ ∀ e, lookup σ n ≠ some (.ex e) := by
+  unfold nonEx
+  rcases lookup σ n with _ | (t | e | _) <;> simp
+
+theorem inst_node_is_node (σ : Subst) (k : String) (as : List String) (ks : List T) :
+    ∃ k' as' ks', inst σ (.node k as ks) = .node k' as' ks' := by
+  cases h : isGA k as ks with
+  | none => exact ⟨_, _, _, inst_other σ h⟩
+  | some n =>
+    obtain ⟨rfl, rfl, rfl⟩ := isGA_some h
+    have := instGa σ n
+    unfold gaNode at this
+    rw [this]
+    rcases lookup σ n with _ | (t | e | _) <;> exact ⟨_, _, _, rfl⟩
+
+/-- instantiating the children of an ordinary node does not produce the ambiguous generic-argument shape, unless
+    the child is an expression parameter in type-argument position (which `kindOK` excludes) -/
+theorem isGA_instL (σ : Subst) {k : String} {as : List String} {ks : List T} (h : isGA k as ks = none)
+    (hne : ¬ ∃ n, k = "GenericArgument::Type" ∧ as = [] ∧ ks = [.eparam n]) : isGA k as (instL σ ks) = none := by
+  cases h' : isGA k as (instL σ ks) with
+  | none => rfl
+  | some m =>
+    exfalso
+    obtain ⟨rfl, rfl, e⟩ := isGA_some h'
+    match ks, e with
+    | [t0], e =>
+      simp only [instL] at e
+      injection e with e0 _
+      cases t0 with
+      | tparam n0 => simp [isGA] at h
+      | eparam n0 => exact hne ⟨n0, rfl, rfl, rfl⟩
+      | node k0 as0 ks0 =>
+        obtain ⟨k', as', ks', e'⟩ := inst_node_is_node σ k0 as0 ks0
+        rw [e'] at e0; cases e0
+    | [], e => simp [instL] at e
+    | _ :: _ :: _, e => simp [instL] at e
+
+/-! ### Composition -/
+
+/-- the value `comp θ ρ` gives to a parameter `n` that `θ` binds to `v` -/
+def compVal (ρ : Subst) (n : String) : Val → Val
+  | .ty (.tparam m) => (match lookup ρ m with
+      | some (.ex e) => .ex e
+      | _ => .ty (inst ρ (.tparam m)))
+  | .ty t => .ty (inst ρ t)
+  | .ex e => .ex (inst ρ e)
+  | .identity => (match lookup ρ n with | some w => w | none => .identity)
+
+theorem comp_eq (θ ρ : Subst) : comp θ ρ = θ.map (fun p => (p.1, compVal ρ p.1 p.2)) := by
+  unfold comp
+  apply List.map_congr_left
+  rintro ⟨n, v⟩ _
+  rcases v with (t | e | _)
+  · cases t with
+    | tparam m =>
+      simp only [compVal]
+      rcases lookup ρ m with _ | (t | e | _) <;> rfl
+    | eparam _ => rfl
+    | node _ _ _ => rfl
+  · rfl
+  · simp only [compVal]
+    rcases lookup ρ n with _ | w <;> rfl
+
+theorem lookup_map_val (f : String → Val → Val) (n : String) : ∀ θ : Subst,
+    lookup (θ.map (fun p => (p.1, f p.1 p.2))) n = (lookup θ n).map (f n)
+  | [] => rfl
+  | (m, v) :: tl => by
+      simp only [List.map, lookup]
+      by_cases hmn : m = n
+      · subst hmn; simp
+      · simp only [if_neg hmn]; exact lookup_map_val f n tl
+
+theorem lookup_comp (θ ρ : Subst) (n : String) : lookup (comp θ ρ) n = (lookup θ n).map (compVal ρ n) := by
+  rw [comp_eq]; exact lookup_map_val (compVal ρ) n θ
+
+theorem compVal_tp_ex {ρ : Subst} {n m : String} {e : T} (h : lookup ρ m = some (.ex e)) :
+    compVal ρ n (.ty (.tparam m)) = .ex e := by simp [compVal, h]
+theorem compVal_tp_notEx {ρ : Subst} {n m : String} (h : nonEx ρ m = true) :
+    compVal ρ n (.ty (.tparam m)) = .ty (inst ρ (.tparam m)) := by
+  have := nonEx_iff.1 h
+  rcases hl : lookup ρ m with _ | (t | e | _)
+  · simp [compVal, hl]
+  · simp [compVal, hl]
+  · exact absurd hl (this e)
+  · simp [compVal, hl]
+theorem compVal_ty_other {ρ : Subst} {n : String} {t : T} (h : ∀ m, t ≠ .tparam m) :
+    compVal ρ n (.ty t) = .ty (inst ρ t) := by
+  cases t with
+  | tparam m => exact absurd rfl (h m)
+  | eparam _ => rfl
+  | node _ _ _ => rfl
+
+theorem kindOK_tparam {θ : Subst} {n : String} (h : kindOK θ (.tparam n) = true) : nonEx θ n = true := by
+  rwa [kindOK] at h
+theorem kindOK_eparam {θ : Subst} {n : String} (h : kindOK θ (.eparam n) = true) : ∀ t, lookup θ n ≠ some (.ty t) := by
+  rw [kindOK] at h
+  intro t ht
+  rw [ht] at h
+  cases h
+theorem kindOKL_cons {θ : Subst} {t : T} {ts : List T} (h : kindOKL θ (t :: ts) = true) :
+    kindOK θ t = true ∧ kindOKL θ ts = true := by
+  rw [kindOKL] at h; simpa using h
+theorem wkL_cons {σ : Subst} {t : T} {ts : List T} (h : wkL σ (t :: ts) = true) :
+    wkT σ t = true ∧ wkL σ ts = true := by
+  rw [wkL] at h; simpa using h
+theorem wkT_tparam {σ : Subst} {n : String} : wkT σ (.tparam n) = nonEx σ n := by rw [wkT]
+
+theorem isGA_single_notTp {t : T} (h : ∀ m, t ≠ .tparam m) : isGA "GenericArgument::Type" [] [t] = none := by
+  cases t with
+  | tparam m => exact absurd rfl (h m)
+  | eparam _ => rfl
+  | node _ _ _ => rfl
+
+theorem inst_gaNode_notTp (σ : Subst) {t : T} (h : ∀ m, t ≠ .tparam m) : inst σ (gaNode t) = gaNode (inst σ t) := by
+  unfold gaNode
+  rw [inst_other σ (isGA_single_notTp h)]
+  simp [instL]
+
+theorem inst_gaConst (σ : Subst) (e : T) :
+    inst σ (.node "GenericArgument::Const" [] [e]) = .node "GenericArgument::Const" [] [inst σ e] := by
+  rw [inst_other σ (by rfl)]
+  simp [instL]
 
 mutual
-theorem inst_comp (θ ρ : Subst) (hθ : noEx θ) (hρ : noEx ρ) :
-    ∀ (t : T), (∀ n ∈ allParams t, (lookup θ n).isSome = true) → inst ρ (inst θ t) = inst (comp θ ρ) t
-  | .tparam n, h => by
-      have hn := h n (by simp [allParams])
-      cases hl : lookup θ n with
-      | none => simp [hl] at hn
-      | some v =>
-        cases v with
-        | ty t => simp [inst, hl, lookup_comp]
-        | ex e => exact absurd hl (hθ n e)
-        | identity =>
-          simp only [inst, hl, lookup_comp, Option.map]
-          cases hr : lookup ρ n with
-          | none => simp
-          | some w => cases w <;> simp
-  | .eparam n, h => by
-      have hn := h n (by simp [allParams])
-      cases hl : lookup θ n with
-      | none => simp [hl] at hn
-      | some v =>
-        cases v with
-        | ty t =>
-          simp only [inst, hl, lookup_comp, Option.map]
-          cases hr : lookup ρ n with
-          | none => simp
-          | some w =>
-            cases w with
-            | ex e => exact absurd hr (hρ n e)
-            | ty _ => simp
-            | identity => simp
-        | ex e => exact absurd hl (hθ n e)
-        | identity =>
-          simp only [inst, hl, lookup_comp, Option.map]
-          cases hr : lookup ρ n with
-          | none => simp
-          | some w =>
-            cases w with
-            | ex e => exact absurd hr (hρ n e)
-            | ty _ => simp
-            | identity => simp
-  | .node k as ks, h => by
-      rw [inst_node θ hθ, inst_node ρ hρ, inst_node _ (noEx_comp θ ρ hθ hρ)]
-      congr 1
-      exact instL_comp θ ρ hθ hρ ks (by simpa [allParams] using h)
-theorem instL_comp (θ ρ : Subst) (hθ : noEx θ) (hρ : noEx ρ) :
-    ∀ (ts : List T), (∀ n ∈ allParams.allParamsL ts, (lookup θ n).isSome = true) →
-      instL ρ (instL θ ts) = instL (comp θ ρ) ts
-  | [], _ => rfl
-  | t :: ts, h => by
-      simp only [instL]
-      rw [inst_comp θ ρ hθ hρ t (fun n hn => h n (by simp [allParams.allParamsL, hn])),
-          instL_comp θ ρ hθ hρ ts (fun n hn => h n (by simp [allParams.allParamsL, hn]))]
+/-- instantiating with `θ` and then with `ρ` is instantiating with the composition, on a tree whose parameters `θ`
+    binds respecting their kinds and whose `θ`-instance `ρ` is well-kinded for -/
+theorem inst_comp (θ ρ : Subst) : ∀ (t : T), (∀ n ∈ allParams t, (lookup θ n).isSome = true) →
+    kindOK θ t = true → wkT ρ (inst θ t) = true → inst ρ (inst θ t) = inst (comp θ ρ) t
+  | .tparam n, hc, hk, hw => by
+      have hn := hc n (by simp [allParams])
+      rcases hl : lookup θ n with _ | (s | e | _)
+      · simp [hl] at hn
+      · rw [instTp_ty hl] at hw ⊢
+        have hlc : lookup (comp θ ρ) n = some (compVal ρ n (.ty s)) := by rw [lookup_comp, hl]; rfl
+        by_cases hs : ∃ m, s = .tparam m
+        · obtain ⟨m, rfl⟩ := hs
+          rw [wkT_tparam] at hw
+          rw [compVal_tp_notEx hw] at hlc
+          rw [instTp_ty hlc]
+        · rw [compVal_ty_other (fun m hm => hs ⟨m, hm⟩)] at hlc
+          rw [instTp_ty hlc]
+      · exact absurd hl (nonEx_iff.1 (kindOK_tparam hk) e)
+      · have hlc : lookup (comp θ ρ) n = some (compVal ρ n .identity) := by rw [lookup_comp, hl]; rfl
+        have e1 : inst θ (.tparam n) = .tparam n := instTp_notTy (fun t ht => by rw [hl] at ht; cases ht)
+        rw [e1]
+        rcases hr : lookup ρ n with _ | (t | e | _)
+        · have : compVal ρ n .identity = .identity := by simp [compVal, hr]
+          rw [this] at hlc
+          rw [instTp_notTy (fun t ht => by rw [hr] at ht; cases ht),
+            instTp_notTy (fun t ht => by rw [hlc] at ht; cases ht)]
+        · have : compVal ρ n .identity = .ty t := by simp [compVal, hr]
+          rw [this] at hlc
+          rw [instTp_ty hr, instTp_ty hlc]
+        · have : compVal ρ n .identity = .ex e := by simp [compVal, hr]
+          rw [this] at hlc
+          rw [instTp_notTy (fun t ht => by rw [hr] at ht; cases ht),
+            instTp_notTy (fun t ht => by rw [hlc] at ht; cases ht)]
+        · have : compVal ρ n .identity = .identity := by simp [compVal, hr]
+          rw [this] at hlc
+          rw [instTp_notTy (fun t ht => by rw [hr] at ht; cases ht),
+            instTp_notTy (fun t ht => by rw [hlc] at ht; cases ht)]
+  | .eparam n, hc, hk, _ => by
+      have hn := hc n (by simp [allParams])
+      rcases hl : lookup θ n with _ | (s | e | _)
+      · simp [hl] at hn
+      · exact absurd hl (kindOK_eparam hk s)
+      · have hlc : lookup (comp θ ρ) n = some (.ex (inst ρ e)) := by rw [lookup_comp, hl]; rfl
+        rw [instEp_ex hl, instEp_ex hlc]
+      · have hlc : lookup (comp θ ρ) n = some (compVal ρ n .identity) := by rw [lookup_comp, hl]; rfl
+        have e1 : inst θ (.eparam n) = .eparam n := instEp_notEx (fun t ht => by rw [hl] at ht; cases ht)
+        rw [e1]
+        rcases hr : lookup ρ n with _ | (t | e | _)
+        · have : compVal ρ n .identity = .identity := by simp [compVal, hr]
+          rw [this] at hlc
+          rw [instEp_notEx (fun t ht => by rw [hr] at ht; cases ht),
+            instEp_notEx (fun t ht => by rw [hlc] at ht; cases ht)]
+        · have : compVal ρ n .identity = .ty t := by simp [compVal, hr]
+          rw [this] at hlc
+          rw [instEp_notEx (fun t ht => by rw [hr] at ht; cases ht),
+            instEp_notEx (fun t ht => by rw [hlc] at ht; cases ht)]
+        · have : compVal ρ n .identity = .ex e := by simp [compVal, hr]
+          rw [this] at hlc
+          rw [instEp_ex hr, instEp_ex hlc]
+        · have : compVal ρ n .identity = .identity := by simp [compVal, hr]
+          rw [this] at hlc
+          rw [instEp_notEx (fun t ht => by rw [hr] at ht; cases ht),
+            instEp_notEx (fun t ht => by rw [hlc] at ht; cases ht)]
+  | .node k as ks, hc, hk, hw => by
+      cases hga : isGA k as ks with
+      | some n =>
+        obtain ⟨rfl, rfl, rfl⟩ := isGA_some hga
+        show inst ρ (inst θ (gaNode (.tparam n))) = inst (comp θ ρ) (gaNode (.tparam n))
+        have hn := hc n (by simp [allParams, allParams.allParamsL])
+        rcases hl : lookup θ n with _ | (s | e | _)
+        · simp [hl] at hn
+        · have hlc : lookup (comp θ ρ) n = some (compVal ρ n (.ty s)) := by rw [lookup_comp, hl]; rfl
+          rw [instGa_ty hl]
+          by_cases hs : ∃ m, s = .tparam m
+          · obtain ⟨m, rfl⟩ := hs
+            rcases hr : lookup ρ m with _ | (t | e | _)
+            · rw [compVal_tp_notEx (by simp [nonEx, hr]), instTp_notTy (fun t ht => by rw [hr] at ht; cases ht)] at hlc
+              rw [instGa_none hr, instGa_ty hlc]
+            · rw [compVal_tp_notEx (by simp [nonEx, hr]), instTp_ty hr] at hlc
+              rw [instGa_ty hr, instGa_ty hlc]
+            · rw [compVal_tp_ex hr] at hlc
+              rw [instGa_ex hr, instGa_ex hlc]
+            · rw [compVal_tp_notEx (by simp [nonEx, hr]), instTp_notTy (fun t ht => by rw [hr] at ht; cases ht)] at hlc
+              rw [instGa_id hr, instGa_ty hlc]
+          · rw [compVal_ty_other (fun m hm => hs ⟨m, hm⟩)] at hlc
+            rw [inst_gaNode_notTp ρ (fun m hm => hs ⟨m, hm⟩), instGa_ty hlc]
+        · have hlc : lookup (comp θ ρ) n = some (.ex (inst ρ e)) := by rw [lookup_comp, hl]; rfl
+          rw [instGa_ex hl, inst_gaConst, instGa_ex hlc]
+        · have hlc : lookup (comp θ ρ) n = some (compVal ρ n .identity) := by rw [lookup_comp, hl]; rfl
+          rw [instGa_id hl]
+          rcases hr : lookup ρ n with _ | (t | e | _)
+          · have : compVal ρ n .identity = .identity := by simp [compVal, hr]
+            rw [this] at hlc
+            rw [instGa_none hr, instGa_id hlc]
+          · have : compVal ρ n .identity = .ty t := by simp [compVal, hr]
+            rw [this] at hlc
+            rw [instGa_ty hr, instGa_ty hlc]
+          · have : compVal ρ n .identity = .ex e := by simp [compVal, hr]
+            rw [this] at hlc
+            rw [instGa_ex hr, instGa_ex hlc]
+          · have : compVal ρ n .identity = .identity := by simp [compVal, hr]
+            rw [this] at hlc
+            rw [instGa_id hr, instGa_id hlc]
+      | none =>
+        obtain ⟨hkl, hne⟩ := kindOK_other θ hga hk
+        have hga' := isGA_instL θ hga hne
+        rw [inst_other θ hga] at hw ⊢
+        rw [wkT_other ρ hga'] at hw
+        rw [inst_other ρ hga', inst_other _ hga]
+        congr 1
+        exact instL_comp θ ρ ks (by simpa [allParams] using hc) hkl hw
+theorem instL_comp (θ ρ : Subst) : ∀ (ts : List T), (∀ n ∈ allParams.allParamsL ts, (lookup θ n).isSome = true) →
+    kindOKL θ ts = true → wkL ρ (instL θ ts) = true → instL ρ (instL θ ts) = instL (comp θ ρ) ts
+  | [], _, _, _ => rfl
+  | t :: ts, hc, hk, hw => by
+      simp only [instL] at hw ⊢
+      obtain ⟨hk1, hk2⟩ := kindOKL_cons hk
+      obtain ⟨hw1, hw2⟩ := wkL_cons hw
+      rw [inst_comp θ ρ t (fun n hn => hc n (by simp [allParams.allParamsL, hn])) hk1 hw1,
+          instL_comp θ ρ ts (fun n hn => hc n (by simp [allParams.allParamsL, hn])) hk2 hw2]
 end
+
+mutual
+/-- … and the composition is well-kinded for the tree -/
+theorem wk_comp (θ ρ : Subst) : ∀ (t : T), (∀ n ∈ allParams t, (lookup θ n).isSome = true) →
+    kindOK θ t = true → wkT ρ (inst θ t) = true → wkT (comp θ ρ) t = true
+  | .tparam n, hc, hk, hw => by
+      have hn := hc n (by simp [allParams])
+      rw [wkT_tparam, nonEx_iff]
+      intro e' he'
+      rw [lookup_comp] at he'
+      rcases hl : lookup θ n with _ | (s | e | _)
+      · simp [hl] at hn
+      · rw [hl] at he'
+        rw [instTp_ty hl] at hw
+        simp only [Option.map_some, Option.some.injEq] at he'
+        by_cases hs : ∃ m, s = .tparam m
+        · obtain ⟨m, rfl⟩ := hs
+          rw [wkT_tparam] at hw
+          rw [compVal_tp_notEx hw] at he'
+          cases he'
+        · rw [compVal_ty_other (fun m hm => hs ⟨m, hm⟩)] at he'
+          cases he'
+      · exact absurd hl (nonEx_iff.1 (kindOK_tparam hk) e)
+      · rw [hl] at he'
+        rw [instTp_notTy (fun t ht => by rw [hl] at ht; cases ht), wkT_tparam] at hw
+        simp only [Option.map_some, Option.some.injEq] at he'
+        rcases hr : lookup ρ n with _ | (t | e | _)
+        · simp [compVal, hr] at he'
+        · simp [compVal, hr] at he'
+        · exact absurd hr (nonEx_iff.1 hw e)
+        · simp [compVal, hr] at he'
+  | .eparam n, _, _, _ => by rw [wkT]
+  | .node k as ks, hc, hk, hw => by
+      cases hga : isGA k as ks with
+      | some n =>
+        obtain ⟨rfl, rfl, rfl⟩ := isGA_some hga
+        rw [wkT]
+      | none =>
+        obtain ⟨hkl, hne⟩ := kindOK_other θ hga hk
+        have hga' := isGA_instL θ hga hne
+        rw [inst_other θ hga, wkT_other ρ hga'] at hw
+        rw [wkT_other _ hga]
+        exact wkL_comp θ ρ ks (by simpa [allParams] using hc) hkl hw
+theorem wkL_comp (θ ρ : Subst) : ∀ (ts : List T), (∀ n ∈ allParams.allParamsL ts, (lookup θ n).isSome = true) →
+    kindOKL θ ts = true → wkL ρ (instL θ ts) = true → wkL (comp θ ρ) ts = true
+  | [], _, _, _ => by rw [wkL]
+  | t :: ts, hc, hk, hw => by
+      simp only [instL] at hw
+      obtain ⟨hk1, hk2⟩ := kindOKL_cons hk
+      obtain ⟨hw1, hw2⟩ := wkL_cons hw
+      rw [wkL, wk_comp θ ρ t (fun n hn => hc n (by simp [allParams.allParamsL, hn])) hk1 hw1,
+          wkL_comp θ ρ ts (fun n hn => hc n (by simp [allParams.allParamsL, hn])) hk2 hw2]
+      rfl
+end
+
+/-! ### Uniqueness of the matching substitution (for C04 and "never another block") -/
+
+/-- two substitutions agree on parameter `n` in type position / expression position / generic-argument position -/
+def Ab (σ τ : Subst) (n : String) : Prop := inst σ (.tparam n) = inst τ (.tparam n)
+def Ae (σ τ : Subst) (n : String) : Prop := inst σ (.eparam n) = inst τ (.eparam n)
+def Ag (σ τ : Subst) (n : String) : Prop := inst σ (gaNode (.tparam n)) = inst τ (gaNode (.tparam n))
+
+theorem Ag.ab {σ τ : Subst} {n : String} (h : Ag σ τ n) : Ab σ τ n := by
+  unfold Ag at h
+  unfold Ab
+  rw [instGa, instGa] at h
+  rw [inst, inst]
+  revert h
+  rcases lookup σ n with _ | (t | e | _) <;> rcases lookup τ n with _ | (t' | e' | _) <;> simp [gaNode] <;>
+    (intro h; simp [h])
+
+theorem Ag.ae {σ τ : Subst} {n : String} (h : Ag σ τ n) : Ae σ τ n := by
+  unfold Ag at h
+  unfold Ae
+  rw [instGa, instGa] at h
+  rw [inst, inst]
+  revert h
+  rcases lookup σ n with _ | (t | e | _) <;> rcases lookup τ n with _ | (t' | e' | _) <;> simp [gaNode] <;>
+    (intro h; simp [h])
+
+theorem Ab.ag {σ τ : Subst} {n : String} (h : Ab σ τ n) (h1 : nonEx σ n = true) (h2 : nonEx τ n = true) : Ag σ τ n := by
+  unfold Ab at h
+  unfold Ag
+  rw [instGa, instGa]
+  rw [inst, inst] at h
+  unfold nonEx at h1 h2
+  revert h h1 h2
+  rcases lookup σ n with _ | (t | e | _) <;> rcases lookup τ n with _ | (t' | e' | _) <;> simp [gaNode] <;>
+    (intro h; simp [h])
+
+mutual
+theorem agree_of_eq (σ τ : Subst) : ∀ (t : T), inst σ t = inst τ t →
+    (∀ n ∈ bareOcc t, Ab σ τ n) ∧ (∀ n ∈ exOcc t, Ae σ τ n) ∧ (∀ n ∈ gaOcc t, Ag σ τ n)
+  | .tparam m, h => by
+      refine ⟨?_, ?_, ?_⟩ <;> intro n hn <;> simp [bareOcc, exOcc, gaOcc] at hn
+      subst hn; exact h
+  | .eparam m, h => by
+      refine ⟨?_, ?_, ?_⟩ <;> intro n hn <;> simp [bareOcc, exOcc, gaOcc] at hn
+      subst hn; exact h
+  | .node k as ks, h => by
+      cases hga : isGA k as ks with
+      | some m =>
+        obtain ⟨rfl, rfl, rfl⟩ := isGA_some hga
+        refine ⟨?_, ?_, ?_⟩ <;> intro n hn <;> simp [bareOcc, exOcc, gaOcc] at hn
+        subst hn; exact h
+      | none =>
+        rw [inst_other σ hga, inst_other τ hga] at h
+        injection h with _ _ hks
+        rw [bareOcc_other hga, exOcc_other hga, gaOcc_other hga]
+        exact agreeL_of_eq σ τ ks hks
+theorem agreeL_of_eq (σ τ : Subst) : ∀ (ts : List T), instL σ ts = instL τ ts →
+    (∀ n ∈ bareOccL ts, Ab σ τ n) ∧ (∀ n ∈ exOccL ts, Ae σ τ n) ∧ (∀ n ∈ gaOccL ts, Ag σ τ n)
+  | [], _ => by
+      refine ⟨?_, ?_, ?_⟩ <;> intro n hn <;> simp [bareOccL, exOccL, gaOccL] at hn
+  | t :: ts, h => by
+      simp only [instL] at h
+      injection h with h1 h2
+      obtain ⟨a1, a2, a3⟩ := agree_of_eq σ τ t h1
+      obtain ⟨b1, b2, b3⟩ := agreeL_of_eq σ τ ts h2
+      refine ⟨?_, ?_, ?_⟩ <;> intro n hn <;> simp only [bareOccL, exOccL, gaOccL, List.mem_append] at hn
+      · exact hn.elim (a1 n) (b1 n)
+      · exact hn.elim (a2 n) (b2 n)
+      · exact hn.elim (a3 n) (b3 n)
+end
+
+mutual
+theorem inst_congr (σ τ : Subst) : ∀ (u : T), (∀ n ∈ bareOcc u, Ab σ τ n) → (∀ n ∈ exOcc u, Ae σ τ n) →
+    (∀ n ∈ gaOcc u, Ag σ τ n) → inst σ u = inst τ u
+  | .tparam m, h, _, _ => h m (by simp [bareOcc])
+  | .eparam m, _, h, _ => h m (by simp [exOcc])
+  | .node k as ks, h1, h2, h3 => by
+      cases hga : isGA k as ks with
+      | some m =>
+        obtain ⟨rfl, rfl, rfl⟩ := isGA_some hga
+        exact h3 m (by simp [gaOcc])
+      | none =>
+        rw [bareOcc_other hga] at h1
+        rw [exOcc_other hga] at h2
+        rw [gaOcc_other hga] at h3
+        rw [inst_other σ hga, inst_other τ hga, instL_congr σ τ ks h1 h2 h3]
+theorem instL_congr (σ τ : Subst) : ∀ (us : List T), (∀ n ∈ bareOccL us, Ab σ τ n) → (∀ n ∈ exOccL us, Ae σ τ n) →
+    (∀ n ∈ gaOccL us, Ag σ τ n) → instL σ us = instL τ us
+  | [], _, _, _ => rfl
+  | u :: us, h1, h2, h3 => by
+      simp only [instL]
+      rw [inst_congr σ τ u (fun n hn => h1 n (by simp [bareOccL, hn])) (fun n hn => h2 n (by simp [exOccL, hn]))
+            (fun n hn => h3 n (by simp [gaOccL, hn])),
+          instL_congr σ τ us (fun n hn => h1 n (by simp [bareOccL, hn])) (fun n hn => h2 n (by simp [exOccL, hn]))
+            (fun n hn => h3 n (by simp [gaOccL, hn]))]
+end
+
+mutual
+theorem wkT_bare (σ : Subst) : ∀ (t : T), wkT σ t = true → ∀ n ∈ bareOcc t, nonEx σ n = true
+  | .tparam m, h, n, hn => by
+      simp [bareOcc] at hn; subst hn; rwa [wkT_tparam] at h
+  | .eparam m, _, n, hn => by simp [bareOcc] at hn
+  | .node k as ks, h, n, hn => by
+      cases hga : isGA k as ks with
+      | some m =>
+        obtain ⟨rfl, rfl, rfl⟩ := isGA_some hga
+        simp [bareOcc] at hn
+      | none =>
+        rw [wkT_other σ hga] at h
+        rw [bareOcc_other hga] at hn
+        exact wkL_bare σ ks h n hn
+theorem wkL_bare (σ : Subst) : ∀ (ts : List T), wkL σ ts = true → ∀ n ∈ bareOccL ts, nonEx σ n = true
+  | [], _, n, hn => by simp [bareOccL] at hn
+  | t :: ts, h, n, hn => by
+      obtain ⟨h1, h2⟩ := wkL_cons h
+      simp only [bareOccL, List.mem_append] at hn
+      exact hn.elim (wkT_bare σ t h1 n) (wkL_bare σ ts h2 n)
+end
+
+/-- two substitutions that are well-kinded for `t` and instantiate it alike instantiate alike every tree whose
+    parameter occurrences have counterparts in `t` -/
+theorem inst_agree (σ τ : Subst) (t u : T) (hσ : wkT σ t = true) (hτ : wkT τ t = true) (h : inst σ t = inst τ t)
+    (hs : occSub u t = true) : inst σ u = inst τ u := by
+  obtain ⟨a1, a2, a3⟩ := agree_of_eq σ τ t h
+  simp only [occSub, Bool.and_eq_true, List.all_eq_true, Bool.or_eq_true, List.contains_iff_mem] at hs
+  obtain ⟨⟨s1, s2⟩, s3⟩ := hs
+  apply inst_congr
+  · intro n hn
+    rcases s1 n hn with h' | h'
+    · exact a1 n h'
+    · exact (a3 n h').ab
+  · intro n hn
+    rcases s2 n hn with h' | h'
+    · exact a2 n h'
+    · exact (a3 n h').ae
+  · intro n hn
+    rcases s3 n hn with h' | h'
+    · exact a3 n h'
+    · exact (a1 n h').ag (wkT_bare σ t hσ n h') (wkT_bare τ t hτ n h')
 
 /-- finite choice over an index range -/
 theorem finite_choice {α : Type} [Inhabited α] (n : Nat) (P : Nat → α → Prop) :
@@ -134,6 +580,54 @@ theorem finite_choice {α : Type} [Inhabited α] (n : Nat) (P : Nat → α → P
       simp
       rw [hl]; exact hgn
 
+
+/-! ### Substitutions without const bindings are well-kinded for everything (the old model is included) -/
+
+mutual
+theorem wkT_of_noEx {σ : Subst} (h : noEx σ) : ∀ t : T, wkT σ t = true
+  | .tparam n => by rw [wkT_tparam, nonEx_iff]; exact h n
+  | .eparam _ => by rw [wkT]
+  | .node k as ks => by
+      cases hga : isGA k as ks with
+      | some n => obtain ⟨rfl, rfl, rfl⟩ := isGA_some hga; rw [wkT]
+      | none => rw [wkT_other σ hga]; exact wkL_of_noEx h ks
+theorem wkL_of_noEx {σ : Subst} (h : noEx σ) : ∀ ts : List T, wkL σ ts = true
+  | [] => by rw [wkL]
+  | t :: ts => by rw [wkL, wkT_of_noEx h t, wkL_of_noEx h ts]; rfl
+end
+
+theorem wkB_of_noEx {σ : Subst} (h : noEx σ) (b : Block) : wkB σ b = true := by
+  simp only [wkB, Bool.and_eq_true, List.all_eq_true]
+  exact ⟨⟨wkT_of_noEx h _, fun c _ => ⟨wkT_of_noEx h _, wkT_of_noEx h _⟩⟩, fun p _ => nonEx_iff.2 (h p)⟩
+
+theorem wkF_of_noEx {σ : Subst} (h : noEx σ) (F : Family) : wkF σ F = true := by
+  simp only [wkF, Bool.and_eq_true, List.all_eq_true]
+  exact ⟨wkT_of_noEx h _, fun k _ => ⟨wkT_of_noEx h _, wkT_of_noEx h _⟩⟩
+
+/-- the blocks of the type-parameters-only model apply in this one -/
+theorem applies_of_noEx (W : World) (b : Block) (q : T)
+    (h : ∃ ρ, noEx ρ ∧ inst ρ b.hdr = q ∧ (∀ c ∈ b.clauses, holds W ρ c) ∧ sizedOK W ρ b.sizedParams) : applies W b q := by
+  obtain ⟨ρ, h0, h1, h2, h3⟩ := h
+  exact ⟨ρ, wkB_of_noEx h0 b, h1, h2, h3⟩
+
+mutual
+/-- on a tree without expression parameters a substitution without const bindings respects all kinds -/
+theorem kindOK_of_noEx {θ : Subst} (h : noEx θ) : ∀ t : T, noEParams t = true → kindOK θ t = true
+  | .tparam n, _ => by rw [kindOK, nonEx_iff]; exact h n
+  | .eparam _, he => by simp [noEParams] at he
+  | .node k as ks, he => by
+      have hes : noEParams.noEParamsL ks = true := by simpa [noEParams] using he
+      unfold kindOK
+      split
+      · rfl
+      · simp [noEParams.noEParamsL, noEParams] at hes
+      · exact kindOKL_of_noEx h ks hes
+theorem kindOKL_of_noEx {θ : Subst} (h : noEx θ) : ∀ ts : List T, noEParams.noEParamsL ts = true → kindOKL θ ts = true
+  | [], _ => by rw [kindOKL]
+  | t :: ts, he => by
+      simp only [noEParams.noEParamsL, Bool.and_eq_true] at he
+      rw [kindOKL, kindOK_of_noEx h t he.1, kindOKL_of_noEx h ts he.2]; rfl
+end
 
 /-! ### What `memberOK` gives -/
 
@@ -175,15 +669,35 @@ def WorldTotal (W : World) (F : Family) : Prop :=
   ∀ k ∈ F.keys, ∀ tr ty bs, W.disp tr ty = some bs → ∃ g, assoc bs k.a = some g
 
 /-- the member's substitution binds every parameter of the family's header and keys (C09_binds_all +
-    KeysOverHeaderParams) and binds no const -/
+    KeysOverHeaderParams) and respects the kinds of their occurrences (`kindOK`: a parameter in type position is not
+    bound to an expression, a parameter in expression position is not bound to a type) -/
 def ThetaCovers (F : Family) (m : Member) : Prop :=
-  noEx m.θ ∧ (∀ n ∈ allParams F.hdr, (lookup m.θ n).isSome = true) ∧
-  ∀ k ∈ F.keys, (∀ n ∈ allParams k.bounded, (lookup m.θ n).isSome = true) ∧
+  (kindOK m.θ F.hdr = true ∧ ∀ n ∈ allParams F.hdr, (lookup m.θ n).isSome = true) ∧
+  ∀ k ∈ F.keys, kindOK m.θ k.bounded = true ∧ kindOK m.θ k.tr = true ∧
+                (∀ n ∈ allParams k.bounded, (lookup m.θ n).isSome = true) ∧
                 (∀ n ∈ allParams k.tr, (lookup m.θ n).isSome = true)
+
+/-- `thetaCoversB` (Sem.lean, evaluated by the driver's `family` command) decides `ThetaCovers` -/
+theorem thetaCoversB_iff (F : Family) (m : Member) : thetaCoversB F m = true ↔ ThetaCovers F m := by
+  simp only [thetaCoversB, ThetaCovers, boundAll, Bool.and_eq_true, List.all_eq_true]
+  constructor
+  · rintro ⟨⟨h1, h2⟩, h3⟩
+    exact ⟨⟨h1, h2⟩, fun k hk => ⟨(h3 k hk).1.1.1, (h3 k hk).1.1.2, (h3 k hk).1.2, (h3 k hk).2⟩⟩
+  · rintro ⟨⟨h1, h2⟩, h3⟩
+    exact ⟨⟨h1, h2⟩, fun k hk => ⟨⟨⟨(h3 k hk).1, (h3 k hk).2.1⟩, (h3 k hk).2.2.1⟩, (h3 k hk).2.2.2⟩⟩
+
+/-- the hypothesis of the type-parameters-only model implies the present one -/
+theorem thetaCovers_of_noEx (F : Family) (m : Member) (h0 : noEx m.θ)
+    (hh : noEParams F.hdr = true) (hk : ∀ k ∈ F.keys, noEParams k.bounded = true ∧ noEParams k.tr = true)
+    (h1 : ∀ n ∈ allParams F.hdr, (lookup m.θ n).isSome = true)
+    (h2 : ∀ k ∈ F.keys, (∀ n ∈ allParams k.bounded, (lookup m.θ n).isSome = true) ∧
+                (∀ n ∈ allParams k.tr, (lookup m.θ n).isSome = true)) : ThetaCovers F m :=
+  ⟨⟨kindOK_of_noEx h0 _ hh, h1⟩, fun k hkm =>
+    ⟨kindOK_of_noEx h0 _ (hk k hkm).1, kindOK_of_noEx h0 _ (hk k hkm).2, (h2 k hkm).1, (h2 k hkm).2⟩⟩
 
 /-- `Sized` requirements of the main impl follow from those of the member (fails for D7) -/
 def SizedCompat (W : World) (F : Family) (m : Member) : Prop :=
-  ∀ ρ, noEx ρ → sizedOK W ρ m.blk.sizedParams → sizedOK W (comp m.θ ρ) F.sizedParams
+  ∀ ρ, wkB ρ m.blk = true → sizedOK W ρ m.blk.sizedParams → sizedOK W (comp m.θ ρ) F.sizedParams
 
 /-- soundness direction: whatever the generated program selects is a block that applies -/
 theorem gen_sub_spec (W : World) (F : Family) (m : Member) (q : T) :
@@ -191,28 +705,59 @@ theorem gen_sub_spec (W : World) (F : Family) (m : Member) (q : T) :
   rintro ⟨τ, gs, _, _, _, _, _, ρ, h0, h1, h2, h3, _⟩
   exact ⟨ρ, h0, h1, h2, h3⟩
 
+theorem wkB_parts {ρ : Subst} {b : Block} (h : wkB ρ b = true) :
+    wkT ρ b.hdr = true ∧ (∀ c ∈ b.clauses, wkT ρ c.bounded = true ∧ wkT ρ c.tr = true) ∧
+    ∀ p ∈ b.sizedParams, nonEx ρ p = true := by
+  simp only [wkB, Bool.and_eq_true, List.all_eq_true] at h
+  exact ⟨h.1.1, h.1.2, h.2⟩
+
+/-- well-kindedness for a block only depends on its header, the set of its bounds and the set of its `Sized`
+    parameters -/
+theorem wkB_of_sub {ρ : Subst} {b b' : Block} (hh : b'.hdr = b.hdr) (hc : ∀ c ∈ b'.clauses, c ∈ b.clauses)
+    (hs : ∀ p ∈ b'.sizedParams, p ∈ b.sizedParams) (h : wkB ρ b = true) : wkB ρ b' = true := by
+  obtain ⟨w1, w2, w3⟩ := wkB_parts h
+  simp only [wkB, Bool.and_eq_true, List.all_eq_true]
+  exact ⟨⟨by rw [hh]; exact w1, fun c hcm => w2 c (hc c hcm)⟩, fun p hp => w3 p (hs p hp)⟩
+
 /-- completeness direction: a block that applies is reached through the main impl and its helper impl -/
 theorem spec_sub_gen (W : World) (F : Family) (m : Member) (q : T)
     (hm : memberOK F m = true) (hw : WorldTotal W F) (hθ : ThetaCovers F m) (hs : SizedCompat W F m) :
     applies W m.blk q → genSel W F m q := by
   rintro ⟨ρ, hρ, hq, hc, hsz⟩
-  obtain ⟨hθ0, hθh, hθk⟩ := hθ
+  obtain ⟨⟨hθk0, hθh⟩, hθk⟩ := hθ
+  obtain ⟨hwh, hwc, _⟩ := wkB_parts hρ
   have hhdr := memberOK_hdr hm
   have hlen := memberOK_len hm
-  have hτ : noEx (comp m.θ ρ) := noEx_comp _ _ hθ0 hρ
+  -- what a key gives
+  have hkey : ∀ i (h : i < F.keys.length), ∃ c ∈ m.blk.clauses,
+      c.bounded = inst m.θ (F.keys[i]).bounded ∧ c.tr = inst m.θ (F.keys[i]).tr ∧
+      (∀ p, m.row[i]'(by omega) = some p → ((F.keys[i]).a, p) ∈ c.binds) ∧
+      inst ρ c.bounded = inst (comp m.θ ρ) (F.keys[i]).bounded ∧ inst ρ c.tr = inst (comp m.θ ρ) (F.keys[i]).tr ∧
+      wkT (comp m.θ ρ) (F.keys[i]).bounded = true ∧ wkT (comp m.θ ρ) (F.keys[i]).tr = true := by
+    intro i h
+    obtain ⟨c, hcm, hb, ht, hrow⟩ := memberOK_key hm i h (by omega)
+    obtain ⟨kb, kt, cb, ct⟩ := hθk _ (List.getElem_mem h)
+    obtain ⟨wb, wt⟩ := hwc c hcm
+    rw [hb] at wb
+    rw [ht] at wt
+    refine ⟨c, hcm, hb, ht, hrow, ?_, ?_, wk_comp _ _ _ cb kb wb, wk_comp _ _ _ ct kt wt⟩
+    · rw [hb]; exact inst_comp _ _ _ cb kb wb
+    · rw [ht]; exact inst_comp _ _ _ ct kt wt
+  have hτ : wkF (comp m.θ ρ) F = true := by
+    simp only [wkF, Bool.and_eq_true, List.all_eq_true]
+    refine ⟨wk_comp _ _ _ hθh hθk0 (by rw [hhdr]; exact hwh), ?_⟩
+    intro k hk
+    obtain ⟨i, hi, rfl⟩ := List.mem_iff_getElem.1 hk
+    obtain ⟨_, _, _, _, _, _, _, w1, w2⟩ := hkey i hi
+    exact ⟨w1, w2⟩
   -- one projection per key
   have hproj : ∀ i, i < F.keys.length → ∃ g, ∀ (h : i < F.keys.length),
       projOK W (comp m.θ ρ) F.keys[i] g ∧
       (∀ p, m.row[i]'(by omega) = some p → inst ρ p = g) ∧
       projOK W ρ ((F.keys[i]).via m.θ) g := by
     intro i h
-    obtain ⟨c, hcm, hb, ht, hrow⟩ := memberOK_key hm i h (by omega)
+    obtain ⟨c, hcm, hb, ht, hrow, eb, et, _, _⟩ := hkey i h
     obtain ⟨bs, hd, hbinds⟩ := hc c hcm
-    obtain ⟨hkb, hkt⟩ := hθk _ (List.getElem_mem h)
-    have eb : inst ρ c.bounded = inst (comp m.θ ρ) (F.keys[i]).bounded := by
-      rw [hb]; exact inst_comp _ _ hθ0 hρ _ hkb
-    have et : inst ρ c.tr = inst (comp m.θ ρ) (F.keys[i]).tr := by
-      rw [ht]; exact inst_comp _ _ hθ0 hρ _ hkt
     obtain ⟨g, hg⟩ := hw _ (List.getElem_mem h) _ _ _ hd
     refine ⟨g, fun _ => ⟨⟨bs, by rw [← eb, ← et]; exact hd, hg⟩, ?_, ⟨bs, ?_, hg⟩⟩⟩
     · intro p hp
@@ -221,7 +766,7 @@ theorem spec_sub_gen (W : World) (F : Family) (m : Member) (q : T)
     · simp only [Key.via]; rw [← hb, ← ht]; exact hd
   obtain ⟨gs, hgl, hgs⟩ := finite_choice F.keys.length _ hproj
   refine ⟨comp m.θ ρ, gs, hτ, ?_, hs ρ hρ hsz, hgl, ?_, ρ, hρ, hq, hc, hsz, hgl, ?_⟩
-  · rw [← inst_comp _ _ hθ0 hρ _ hθh, hhdr]; exact hq
+  · rw [← inst_comp _ _ _ hθh hθk0 (by rw [hhdr]; exact hwh), hhdr]; exact hq
   · intro i h h2
     exact ((hgs i h2) h).1
   · intro i h h1 h2
@@ -230,65 +775,19 @@ theorem spec_sub_gen (W : World) (F : Family) (m : Member) (q : T)
     · next p hp => exact this.2.1 p hp
     · exact this.2.2
 
-
-/-! ### Uniqueness of the matching substitution (for C04 and "never another block") -/
-
-mutual
-theorem inst_agree (σ τ : Subst) (hσ : noEx σ) (hτ : noEx τ) :
-    ∀ (t : T), inst σ t = inst τ t → ∀ (u : T), (∀ n ∈ allParams u, n ∈ allParams t) → noEParams u = true → noEParams t = true →
-      inst σ u = inst τ u
-  | t, h, u, hu, hue, hte => by
-      have key : ∀ n ∈ allParams t, inst σ (.tparam n) = inst τ (.tparam n) := tparam_agree σ τ hσ hτ t h hte
-      exact inst_congr_tp σ τ hσ hτ u (fun n hn => key n (hu n hn)) hue
-theorem tparam_agree (σ τ : Subst) (hσ : noEx σ) (hτ : noEx τ) :
-    ∀ (t : T), inst σ t = inst τ t → noEParams t = true → ∀ n ∈ allParams t, inst σ (.tparam n) = inst τ (.tparam n)
-  | .tparam m, h, _, n, hn => by
-      simp [allParams] at hn; subst hn; exact h
-  | .eparam m, _, he, _, _ => by simp [noEParams] at he
-  | .node k as ks, h, he, n, hn => by
-      rw [inst_node σ hσ, inst_node τ hτ] at h
-      injection h with _ _ hks
-      exact tparamL_agree σ τ hσ hτ ks hks (by simpa [noEParams] using he) n (by simpa [allParams] using hn)
-theorem tparamL_agree (σ τ : Subst) (hσ : noEx σ) (hτ : noEx τ) :
-    ∀ (ts : List T), instL σ ts = instL τ ts → noEParams.noEParamsL ts = true →
-      ∀ n ∈ allParams.allParamsL ts, inst σ (.tparam n) = inst τ (.tparam n)
-  | [], _, _, n, hn => by simp [allParams.allParamsL] at hn
-  | t :: ts, h, he, n, hn => by
-      simp only [instL] at h
-      injection h with h1 h2
-      simp only [noEParams.noEParamsL, Bool.and_eq_true] at he
-      simp only [allParams.allParamsL, List.mem_append] at hn
-      rcases hn with hn | hn
-      · exact tparam_agree σ τ hσ hτ t h1 he.1 n hn
-      · exact tparamL_agree σ τ hσ hτ ts h2 he.2 n hn
-theorem inst_congr_tp (σ τ : Subst) (hσ : noEx σ) (hτ : noEx τ) :
-    ∀ (u : T), (∀ n ∈ allParams u, inst σ (.tparam n) = inst τ (.tparam n)) → noEParams u = true → inst σ u = inst τ u
-  | .tparam m, h, _ => h m (by simp [allParams])
-  | .eparam m, _, he => by simp [noEParams] at he
-  | .node k as ks, h, he => by
-      rw [inst_node σ hσ, inst_node τ hτ]
-      congr 1
-      exact instL_congr_tp σ τ hσ hτ ks (by simpa [allParams] using h) (by simpa [noEParams] using he)
-theorem instL_congr_tp (σ τ : Subst) (hσ : noEx σ) (hτ : noEx τ) :
-    ∀ (us : List T), (∀ n ∈ allParams.allParamsL us, inst σ (.tparam n) = inst τ (.tparam n)) →
-      noEParams.noEParamsL us = true → instL σ us = instL τ us
-  | [], _, _ => rfl
-  | u :: us, h, he => by
-      simp only [noEParams.noEParamsL, Bool.and_eq_true] at he
-      simp only [instL]
-      rw [inst_congr_tp σ τ hσ hτ u (fun n hn => h n (by simp [allParams.allParamsL, hn])) he.1,
-          instL_congr_tp σ τ hσ hτ us (fun n hn => h n (by simp [allParams.allParamsL, hn])) he.2]
-end
-
-/-- every parameter of a key occurs in the family's header; no expression parameters (DESIGN §6, clause 5) -/
+/-- every parameter occurrence of a key has a counterpart in the family's header that determines its value
+    (DESIGN §6, clause 5): a type position one in type or generic-argument position, an expression position one in
+    expression or generic-argument position, a generic-argument position one in generic-argument or type position -/
 def KeysOverHeader (F : Family) : Prop :=
-  noEParams F.hdr = true ∧
-  ∀ k ∈ F.keys, (∀ n ∈ allParams k.bounded, n ∈ allParams F.hdr) ∧ (∀ n ∈ allParams k.tr, n ∈ allParams F.hdr) ∧
-    noEParams k.bounded = true ∧ noEParams k.tr = true
+  ∀ k ∈ F.keys, occSub k.bounded F.hdr = true ∧ occSub k.tr F.hdr = true
+
+/-- `keysOverHeaderB` (Sem.lean, evaluated by the driver's `family` command) decides `KeysOverHeader` -/
+theorem keysOverHeaderB_iff (F : Family) : keysOverHeaderB F = true ↔ KeysOverHeader F := by
+  simp only [keysOverHeaderB, KeysOverHeader, List.all_eq_true, Bool.and_eq_true]
 
 /-- the helper arguments of the main impl are determined by the query -/
 theorem helper_args_unique (W : World) (F : Family) (hk : KeysOverHeader F) (q : T) (τ1 τ2 : Subst) (gs1 gs2 : List T)
-    (h1 : noEx τ1) (h2 : noEx τ2) (e1 : inst τ1 F.hdr = q) (e2 : inst τ2 F.hdr = q)
+    (h1 : wkT τ1 F.hdr = true) (h2 : wkT τ2 F.hdr = true) (e1 : inst τ1 F.hdr = q) (e2 : inst τ2 F.hdr = q)
     (l1 : gs1.length = F.keys.length) (l2 : gs2.length = F.keys.length)
     (p1 : ∀ i (h : i < F.keys.length) (h2 : i < gs1.length), projOK W τ1 F.keys[i] gs1[i])
     (p2 : ∀ i (h : i < F.keys.length) (h2 : i < gs2.length), projOK W τ2 F.keys[i] gs2[i]) : gs1 = gs2 := by
@@ -297,15 +796,92 @@ theorem helper_args_unique (W : World) (F : Family) (hk : KeysOverHeader F) (q :
   have hi : i < F.keys.length := by omega
   obtain ⟨bs1, d1, a1⟩ := p1 i hi hi1
   obtain ⟨bs2, d2, a2⟩ := p2 i hi hi2
-  obtain ⟨hte, hkk⟩ := hk
-  obtain ⟨kb, kt, kbe, kte⟩ := hkk _ (List.getElem_mem hi)
+  obtain ⟨kb, kt⟩ := hk _ (List.getElem_mem hi)
   have hh : inst τ1 F.hdr = inst τ2 F.hdr := by rw [e1, e2]
-  have eb := inst_agree τ1 τ2 h1 h2 F.hdr hh _ kb kbe hte
-  have et := inst_agree τ1 τ2 h1 h2 F.hdr hh _ kt kte hte
+  have eb := inst_agree τ1 τ2 F.hdr _ h1 h2 hh kb
+  have et := inst_agree τ1 τ2 F.hdr _ h1 h2 hh kt
   rw [eb, et] at d1
   rw [d1] at d2
   cases d2
   rw [a1] at a2
   exact Option.some.inj a2
+
+theorem wkF_hdr {τ : Subst} {F : Family} (h : wkF τ F = true) : wkT τ F.hdr = true := by
+  simp only [wkF, Bool.and_eq_true] at h
+  exact h.1
+
+/-! ### The side conditions of the type-parameters-only model imply the present ones -/
+
+mutual
+theorem allParams_occ : ∀ (t : T) (n : String), n ∈ allParams t ↔ n ∈ bareOcc t ∨ n ∈ exOcc t ∨ n ∈ gaOcc t
+  | .tparam m, n => by simp [allParams, bareOcc, exOcc, gaOcc]
+  | .eparam m, n => by simp [allParams, bareOcc, exOcc, gaOcc]
+  | .node k as ks, n => by
+      cases hga : isGA k as ks with
+      | some m =>
+        obtain ⟨rfl, rfl, rfl⟩ := isGA_some hga
+        simp [allParams, allParams.allParamsL, bareOcc, exOcc, gaOcc]
+      | none =>
+        rw [bareOcc_other hga, exOcc_other hga, gaOcc_other hga]
+        simpa [allParams] using allParamsL_occ ks n
+theorem allParamsL_occ : ∀ (ts : List T) (n : String),
+    n ∈ allParams.allParamsL ts ↔ n ∈ bareOccL ts ∨ n ∈ exOccL ts ∨ n ∈ gaOccL ts
+  | [], n => by simp [allParams.allParamsL, bareOccL, exOccL, gaOccL]
+  | t :: ts, n => by
+      simp only [allParams.allParamsL, bareOccL, exOccL, gaOccL, List.mem_append, allParams_occ t n, allParamsL_occ ts n]
+      constructor
+      · rintro ((h | h | h) | (h | h | h))
+        · exact Or.inl (Or.inl h)
+        · exact Or.inr (Or.inl (Or.inl h))
+        · exact Or.inr (Or.inr (Or.inl h))
+        · exact Or.inl (Or.inr h)
+        · exact Or.inr (Or.inl (Or.inr h))
+        · exact Or.inr (Or.inr (Or.inr h))
+      · rintro ((h | h) | (h | h) | (h | h))
+        · exact Or.inl (Or.inl h)
+        · exact Or.inr (Or.inl h)
+        · exact Or.inl (Or.inr (Or.inl h))
+        · exact Or.inr (Or.inr (Or.inl h))
+        · exact Or.inl (Or.inr (Or.inr h))
+        · exact Or.inr (Or.inr (Or.inr h))
+end
+
+mutual
+theorem exOcc_of_noEParams : ∀ (t : T), noEParams t = true → exOcc t = []
+  | .tparam _, _ => by rw [exOcc]
+  | .eparam _, h => by simp [noEParams] at h
+  | .node k as ks, h => by
+      cases hga : isGA k as ks with
+      | some m => obtain ⟨rfl, rfl, rfl⟩ := isGA_some hga; rw [exOcc]
+      | none => rw [exOcc_other hga]; exact exOccL_of_noEParams ks (by simpa [noEParams] using h)
+theorem exOccL_of_noEParams : ∀ (ts : List T), noEParams.noEParamsL ts = true → exOccL ts = []
+  | [], _ => by rw [exOccL]
+  | t :: ts, h => by
+      simp only [noEParams.noEParamsL, Bool.and_eq_true] at h
+      rw [exOccL, exOcc_of_noEParams t h.1, exOccL_of_noEParams ts h.2]; rfl
+end
+
+theorem occSub_of_noEParams {u h : T} (hu : noEParams u = true) (hh : noEParams h = true)
+    (hs : ∀ n ∈ allParams u, n ∈ allParams h) : occSub u h = true := by
+  have key : ∀ n ∈ allParams u, n ∈ bareOcc h ∨ n ∈ gaOcc h := by
+    intro n hn
+    have := (allParams_occ h n).1 (hs n hn)
+    rw [exOcc_of_noEParams h hh] at this
+    simpa using this
+  simp only [occSub, Bool.and_eq_true, List.all_eq_true, Bool.or_eq_true, List.contains_iff_mem]
+  refine ⟨⟨?_, ?_⟩, ?_⟩
+  · intro n hn
+    exact key n ((allParams_occ u n).2 (Or.inl hn))
+  · intro n hn
+    rw [exOcc_of_noEParams u hu] at hn
+    cases hn
+  · intro n hn
+    exact (key n ((allParams_occ u n).2 (Or.inr (Or.inr hn)))).symm
+
+/-- `KeysOverHeader` as it was stated for the type-parameters-only model implies the present one -/
+theorem keysOverHeader_of_noEParams (F : Family) (hte : noEParams F.hdr = true)
+    (h : ∀ k ∈ F.keys, (∀ n ∈ allParams k.bounded, n ∈ allParams F.hdr) ∧ (∀ n ∈ allParams k.tr, n ∈ allParams F.hdr) ∧
+      noEParams k.bounded = true ∧ noEParams k.tr = true) : KeysOverHeader F :=
+  fun k hk => ⟨occSub_of_noEParams (h k hk).2.2.1 hte (h k hk).1, occSub_of_noEParams (h k hk).2.2.2 hte (h k hk).2.1⟩
 
 end DI
